@@ -1,11 +1,14 @@
 #!/bin/bash
 # dev helper: apply every seeded change in turn and run the check of its property (quick tier);
 # every one must be reported as a violation. Writes seeded/RESULTS.txt.
-cd /verif
+# In a snapshot: vp run --with-repo --timeout 3h -- bash -c './setup.sh >/dev/null 2>&1; ./seedregress.sh'
+V=$(cd "$(dirname "$0")" && pwd)
+export VERIF_REPO=${VERIF_REPO:-${VP_RUN_REPO:-/repo}}
+cd $V
 : > seeded/RESULTS.txt
 for d in seeded/*/; do
   id=$(basename $d); prop=${id%%-*}
-  out=$(./mutcheck.sh /verif/$d/patch.diff $prop 2>&1 | grep -E "^(VIOLATION|OK|KNOWN)" | head -1)
+  out=$(./mutcheck.sh $V/$d/patch.diff $prop 2>&1 | grep -E "^(VIOLATION|OK|KNOWN|cannot)" | grep -v "^KNOWN" | head -1)
   echo "$id: ${out:-NO-OUTPUT}" | cut -c1-200 | tee -a seeded/RESULTS.txt
 done
-git -C /repo status --short | head -3
+git -C $VERIF_REPO status --short | head -3
